@@ -22,6 +22,7 @@ func init() {
 			"(R5) the literal-only fast path is taken exactly when the base signature has no hashes; (R6) a block operation is emitted only for an index whose strong hash was compared equal with bytes.Equal against the signature's hash at that index; " +
 			"(R7, Patch) a data operation writes exactly operation.Data; a block operation seeks to Start·BlockSize and copies Count blocks, using LastBlockSize exactly for the signature's last index and BlockSize otherwise, each read with ReadFull. " +
 			"(R8, every base block can be found) the weak-hash lookup table is a multimap: each full-size block's index is appended, unconditionally, to the candidates of its weak hash, and the search compares the strong hash inside a loop over those candidates — 32-bit weak hashes collide, and a table that keeps one block per weak hash sends colliding unchanged blocks as literals; " +
+			"(R9) Patch seeks the base for every block operation under no condition on the engine's own state (an engine is reused across bases; a remembered offset belongs to the previous one); " +
 			"Not decided: Apply(base, Delta(base,target)) = target; absence of literals for unchanged targets beyond R5.",
 		Assumptions: []string{"strong-hash equality means block equality (collision resistance)"},
 		Run:         runC19,
@@ -29,6 +30,7 @@ func init() {
 }
 
 func runC19(c *eng.Ctx) {
+	c19SeekEveryBlock(c)
 	del := c.MustFunc("R1", rsyncPkg, "Engine.Deltify")
 	chunk := c.MustFunc("R1", rsyncPkg, "Engine.chunkAndTransmitAll")
 	if del == nil || chunk == nil {
